@@ -4,6 +4,7 @@ import (
 	"bytes"
 	"context"
 	"fmt"
+	"golang.org/x/tools/go/ssa"
 	"os/exec"
 	"strings"
 	"sync"
@@ -69,36 +70,107 @@ func runSolver(ctx context.Context, s SolverSpec, query string, timeoutSec int) 
 	return SolveResult{Answer: ans, Solver: s.Name, Secs: secs, Output: text}
 }
 
-// buildQuery makes the query that checks obligation k of vc.
+// buildQuery makes the query that checks obligation k of vc: the VC is sliced to the blocks from
+// which the obligation's block is reachable; every other assertion on those paths is an assumption;
+// nothing after the obligation is included.
 func buildQuery(vc *FnVC, k int, wantModel bool) string {
-	var sb strings.Builder
-	sb.WriteString("(set-option :produce-models true)\n(set-logic ALL)\n")
-	sb.WriteString(vc.Prelude)
-	for i, ob := range vc.Obs {
-		if i == k {
-			sb.WriteString("(assert " + ob.Sel + ")\n")
-		} else {
-			sb.WriteString("(assert (not " + ob.Sel + "))\n")
+	if vc.Mismatch != "" {
+		return "(set-logic ALL)\n(check-sat)\n"
+	}
+	target := vc.Obs[k]
+	// locate
+	var tb *ssa.BasicBlock
+	texit, titem := -1, -1
+	for _, b := range vc.Order {
+		bv := vc.BVC[b]
+		for i, it := range bv.Items {
+			if it.Ob == target {
+				tb, titem = b, i
+			}
+		}
+		for e := range bv.Exits {
+			for i, it := range bv.Exits[e].Items {
+				if it.Ob == target {
+					tb, texit, titem = b, e, i
+				}
+			}
 		}
 	}
+	var sb strings.Builder
+	sb.WriteString("(set-option :produce-models true)\n(set-logic ALL)\n")
+	sb.WriteString(vc.Decls)
+	for _, d := range vc.Defs {
+		sb.WriteString("(assert " + d + ")\n")
+	}
+	if tb == nil {
+		sb.WriteString("(assert false)\n(check-sat)\n")
+		return sb.String()
+	}
+	// ancestors of tb in the cut graph
+	reach := map[*ssa.BasicBlock]bool{tb: true}
+	for changed := true; changed; {
+		changed = false
+		for _, b := range vc.Order {
+			if reach[b] {
+				continue
+			}
+			for _, ex := range vc.BVC[b].Exits {
+				if ex.Target != nil && reach[ex.Target] {
+					reach[b] = true
+					changed = true
+				}
+			}
+		}
+	}
+	fold := func(items []Item, tail string) string {
+		f := tail
+		for i := len(items) - 1; i >= 0; i-- {
+			it := items[i]
+			if it.Kind == "cover" || it.F == "true" {
+				continue
+			}
+			f = sImp(it.F, f)
+		}
+		return f
+	}
+	goal := func(it Item) string {
+		if it.Kind == "cover" {
+			return "false"
+		}
+		return it.F
+	}
+	for _, b := range vc.Order {
+		if !reach[b] {
+			continue
+		}
+		bv := vc.BVC[b]
+		var f string
+		if b == tb && texit < 0 {
+			f = fold(bv.Items[:titem], goal(bv.Items[titem]))
+		} else {
+			var ex []string
+			for e, x := range bv.Exits {
+				if b == tb && e == texit {
+					ex = append(ex, sImp(x.Cond, fold(x.Items[:titem], goal(x.Items[titem]))))
+					continue
+				}
+				if b == tb {
+					continue // other exits of the target block are irrelevant
+				}
+				if x.Target == nil || !reach[x.Target] {
+					continue
+				}
+				ex = append(ex, sImp(x.Cond, fold(x.Items, okName(x.Target))))
+			}
+			f = fold(bv.Items, sAnd(ex...))
+		}
+		sb.WriteString(fmt.Sprintf("(assert (=> %s %s))\n", f, okName(b)))
+	}
+	sb.WriteString(fmt.Sprintf("(assert (not %s))\n", okName(vc.Fn.Blocks[0])))
 	sb.WriteString("(check-sat)\n")
 	if wantModel {
 		sb.WriteString("(get-model)\n")
 	}
-	return sb.String()
-}
-
-// vacuityQuery: the prelude without the negated goal and with every selector off must be
-// satisfiable together with "entry reachable"; we check the weaker and cheap property that
-// the assumptions at function entry are consistent.
-func vacuityQuery(vc *FnVC) string {
-	var sb strings.Builder
-	sb.WriteString("(set-option :produce-models true)\n(set-logic ALL)\n")
-	sb.WriteString(vc.Prelude)
-	for _, ob := range vc.Obs {
-		sb.WriteString("(assert (not " + ob.Sel + "))\n")
-	}
-	sb.WriteString("(check-sat)\n")
 	return sb.String()
 }
 
